@@ -379,7 +379,8 @@ Proof.
   rewrite takeN_all by exact Hft.
   rewrite (forallb_span (target_chars false) t Htall). cbn [fst].
   rewrite dropN_all by lia.
-  rewrite Et at 1. rewrite <- Et.
+  assert (Hmt : match t with [] => None | _ :: _ => Some (t, @nil N) end = Some (t, [])) by (destruct t; [congruence|reflexivity]).
+  rewrite Hmt.
   assert (req_max_uri <? lenN t = false) as -> by lia.
   eexists. split; [reflexivity|]. cbn [r_mimg r_mid r_uri r_http r_major r_minor set_code set_uri set_proto set_method].
   repeat split; reflexivity.
